@@ -182,6 +182,10 @@ func (t Term) Build() ast.Type {
 			out = ast.NewEnum([]ast.EnumValue{{Type: ast.String(), Name: "a-b c", Value: "a-b c"}, {Type: ast.String(), Name: "", Value: ""}})
 		case "space":
 			out = ast.NewEnum([]ast.EnumValue{{Type: ast.String(), Name: " a ", Value: " a "}, {Type: ast.String(), Name: "b", Value: "b "}})
+		case "plus": // explicitly signed numeric member names
+			out = ast.NewEnum([]ast.EnumValue{{Type: ast.NewScalar(ast.KindInt64), Name: "+1", Value: int64(1)}, {Type: ast.NewScalar(ast.KindInt64), Name: "p", Value: int64(2)}})
+		case "noname": // a member without a name whose value is not the empty string
+			out = ast.NewEnum([]ast.EnumValue{{Type: ast.String(), Name: "", Value: "x"}, {Type: ast.String(), Name: "b", Value: "b"}})
 		default:
 			panic("irgen: enum flavour " + t.A)
 		}
@@ -266,7 +270,7 @@ func (t Term) scalarDefault() any {
 			return int64(1)
 		}
 	case "enum":
-		if t.A == "str" || t.A == "odd" || t.A == "space" {
+		if t.A == "str" || t.A == "odd" || t.A == "space" || t.A == "noname" {
 			return "b"
 		}
 		return int64(2)
